@@ -135,10 +135,14 @@ def _lscore_also(cor, qn=40, tn=300):
     """second pipeline: the same property judged on histories of the store's own API (multi-address Set calls, pinning
     puts under a file context, collection runs with a chunk-info stub), which the node-level driver cannot produce"""
     return [dict(modules=["lscore"], driver="lscoredrv", judge=dict(spec="LSCoreTrace.tla", cfg="LSCoreTrace.cfg"), design=[],
-                 gen=dict(quick=[dict(mode="sim", spec="LSCoreGen.tla", cfg="LSCoreGenSim.cfg", depth=8, num=qn, max=400, name="store-api walks",
-                                      env={"VERIF_LSMODE": "c14"})],
-                          thorough=[dict(mode="sim", spec="LSCoreGen.tla", cfg="LSCoreGenSim.cfg", depth=10, num=tn, max=4000, name="store-api walks",
-                                         env={"VERIF_LSMODE": "c14"})]),
+                 gen=dict(quick=[dict(mode="sim", spec="LSCoreGen.tla", cfg="LSCoreGenSim.cfg", depth=8, num=qn, max=250, name="store-api walks",
+                                      env={"VERIF_LSMODE": "c14"}),
+                                 dict(mode="edges", spec="LSCoreGen.tla", cfg="LSCoreGenFocus.cfg", depth=6, max=500, name="one-context edges",
+                                      env={"VERIF_LSMODE": "c14f"})],
+                          thorough=[dict(mode="sim", spec="LSCoreGen.tla", cfg="LSCoreGenSim.cfg", depth=10, num=tn, max=3000, name="store-api walks",
+                                         env={"VERIF_LSMODE": "c14"}),
+                                    dict(mode="edges", spec="LSCoreGen.tla", cfg="LSCoreGenFocus.cfg", depth=7, max=6000, name="one-context edges",
+                                         env={"VERIF_LSMODE": "c14f"}, timeout=1800)]),
                  corrupt=cor, selftest_scenarios=100000,
                  nontrivial=lambda s: sum(1 for o in s["ops"] if o["op"] in ("put", "set", "gc")) >= 2)]
 
